@@ -60,6 +60,34 @@ def settle(g, path, limit=40):
     return path
 
 
+def random_walk(g, rng, max_len=40):
+    """A behaviour chosen step by step: internal steps as soon as they are enabled (as the real goroutines do), else an
+    environment step, deliveries and high reports preferred so that the node actually syncs."""
+    cur = rng.choice(g.init)
+    path = []
+    while len(path) < max_len:
+        out = [k for k in g.out.get(cur, []) if g.edges[k][3] != cur]
+        if not out:
+            break
+        internal = [k for k in out if g.edges[k][1] in INTERNAL]
+        if internal:
+            internal.sort(key=lambda k: (INTERNAL.index(g.edges[k][1]) if g.edges[k][1] != 'Sync' else -1, k))
+            k = internal[0]
+        else:
+            def weight(k):
+                _, a, args, _ = g.edges[k]
+                if a == 'Deliver':
+                    return 6.0 if args[2] == 'good' else 3.0
+                if a == 'Report':
+                    return 0.4 + args[1]
+                return 0.5
+            ws = [weight(k) for k in out]
+            k = rng.choices(out, weights=ws)[0]
+        path.append(k)
+        cur = g.edges[k][3]
+    return path
+
+
 def applied(tr):
     return max([len(s['post'].get('applied', [])) for s in tr['steps']] or [0])
 
@@ -88,7 +116,8 @@ def run(ctx, replay=None):
 
     quick = ctx.tier == 'quick'
     exhaustive = ['q', 'f3'] if quick else ['q', 'f3', 'u4', 'u4m', 'u3p']
-    graph_cfgs = {'q': (26, 140)} if quick else {'q': (26, 900), 'u4': (34, 500), 'u3p': (34, 300)}
+    graph_cfgs = {'q': (26, 200)} if quick else {'q': (26, 1200), 'u4': (34, 600), 'u3p': (34, 400)}
+    walks = {'q': 200} if quick else {'q': 300, 'u4': 500, 'u3p': 300}
     all_traces = []
     for name in exhaustive:
         cfgfile = CFGS[name][0]
@@ -114,6 +143,19 @@ def run(ctx, replay=None):
                 t['cfg'] = tcfg(name, k + ctx.seed)
                 t['id'] = 'graph-%s-%d' % (name, k)
                 all_traces.append(t)
+            seen_walks = set()
+            for k in range(walks.get(name, 0)):
+                p = tuple(settle(g, random_walk(g, ctx.rng)))
+                if not p or p in seen_walks:
+                    continue
+                seen_walks.add(p)
+                t = trim(tlc.path_to_steps(g, list(p)))
+                if not t['steps']:
+                    continue
+                t['cfg'] = tcfg(name, k + 7 * ctx.seed)
+                t['id'] = 'walk-%s-%d-%d' % (name, ctx.seed, k)
+                all_traces.append(t)
+            ctx.log('walks %s: %d distinct' % (name, len(seen_walks)))
         tlc.cleanup(r)
     # the specification of the code BEFORE the fix must be refuted by TLC (sensitivity of the model)
     r = tlc.run(SPEC, MOD, 'MC_FastSync_old.cfg', workers=2, timeout=600)
@@ -131,8 +173,13 @@ def run(ctx, replay=None):
             if s['a'] == 'Sync' and s['args'][0] == 'apply':
                 probe = copy.deepcopy(t)
                 probe['steps'] = probe['steps'][:si + 1]
-                probe['steps'][si]['post']['height'] += 1          # claims one more block was applied
-                probe['steps'][si]['post']['applied'].append('good')
+                # claims a block more than was applied, from a peer height nobody reported (cannot be reached
+                # later either)
+                post = probe['steps'][si]['post']
+                post['height'] += 1
+                post['applied'].append('good')
+                for pn in post['peerH']:
+                    post['peerH'][pn] += 1
                 break
         if probe:
             break
@@ -152,7 +199,7 @@ def run(ctx, replay=None):
     ctx.cov['evaluations'] = rep['steps']
     ctx.cov['distinct_nontrivial'] = nt
     ctx.cov['rule'] = ('behaviours = edge-cover paths of the dumped state graphs of the urgent-step configurations (distinct edge '
-                       'sets), each run against a source chain whose validator-set change height and tampering variant are '
+                       'sets) + distinct weighted random walks on the same graphs (deliveries preferred), each run against a source chain whose validator-set change height and tampering variant are '
                        'chosen from the behaviour index and seed; non-trivial = contains a sync step, a tampered delivery or a '
                        'peer removal')
     ctx.cov['impl_checks'] = rep['checks']
